@@ -73,10 +73,14 @@ CHECKS = {
  "C20": ("4/C20", "", "--budget 30m",
          "Bounded model checking of truncate / htmlEscape / jsEscape / raw: truncate over every byte string (invalid UTF-8 included, through the forking UTF-8 decoder), every 64-bit size and arbitrary trails against its laws (unchanged if short; else prefix of s on a character boundary + trail, at most max(size, len(trail)) characters), defaults, and the template form; htmlEscape output decodes to its input with no raw special; jsEscape on arbitrary ASCII plus concrete non-ASCII cases has no < > & =, no unescaped quote, no raw line break; raw(s) is byte-identical through Render. toJSON is NOT checked: encoding/json cannot be encoded within reach (sub-claim excluded, see DESIGN.md).",
          "Bounds quick: |s| <= 3, |trail| <= 1; thorough |s| <= 5, |trail| <= 2; jsEscape <= 2 (3) symbolic ASCII bytes on the engine's model of text/template.JSEscape (validated against the stdlib by selftest)."),
+
+ "C14": ("4/C14", "", "--budget 30m",
+         "Bounded model checking of two logical threads (reduced claim): the executor runs the two operations as threads 1 and 2 in both orders, logs every access to a heap location (leaf cells, Go maps as one location each) with the mutexes held, and for every pair of conflicting accesses asks the solver whether timestamps exist in which the two are adjacent under program order and mutual exclusion of critical sections (critical sections that communicated keep their observed order); sat = data race, replayed natively under `go test -race`. Pairs: all 8x8 combinations of Set/Value/Has/New on a context and its parent; one parsed template (16 programs covering every node type) executed from two threads with own root contexts and with children of one shared parent, each result compared with the result of running alone; Render/Render (cold, warm, different texts) and Parse/CacheSet with the cache enabled.",
+         "Bounds: two threads, one operation each (races are pairwise, so two threads cover any number of goroutines running these operations); synchronisation by sync.Mutex / RWMutex only - a path that touches sync/atomic, sync.Once, sync.Map, channels or starts goroutines is inconclusive; the Go memory model beyond 'unsynchronised conflicting accesses' is not modelled; the native confirmation is probabilistic (300 rounds under the race detector)."),
 }
 
 PENDING = "check not built yet in this session (build in progress, see DESIGN.md section 8)"
-NA = {"C14": "the schedule encoding (two logical threads, access log, SMT timestamps) is being built; until it is finished goroutine interleavings are outside the encoder - no other technique is substituted"}
+NA = {}
 
 def main():
     props = [json.loads(l)["id"] for l in open("properties.jsonl")]
